@@ -86,6 +86,28 @@ namespace LLTD.X
 @[simp] theorem htons0102_val : htons0102 = 513 := by decide
 @[simp] theorem htonl01020304_val : htonl01020304 = 67305985 := by decide
 
+@[simp] theorem sessConflicting_val : sessConflicting = 0 := by decide
+@[simp] theorem sessReset_val : sessReset = 1 := by decide
+@[simp] theorem sessNoack_val : sessNoack = 2 := by decide
+@[simp] theorem sessAcking_val : sessAcking = 3 := by decide
+@[simp] theorem sessNoackChgd_val : sessNoackChgd = 4 := by decide
+@[simp] theorem sessAckingChgd_val : sessAckingChgd = 5 := by decide
+@[simp] theorem sessTopoReset_val : sessTopoReset = 6 := by decide
+@[simp] theorem sessHello_val : sessHello = 7 := by decide
+@[simp] theorem enumSessComplete_val : enumSessComplete = 0 := by decide
+@[simp] theorem enumSessNotComplete_val : enumSessNotComplete = 1 := by decide
+@[simp] theorem enumHello_val : enumHello = 2 := by decide
+@[simp] theorem enumNewSession_val : enumNewSession = 3 := by decide
+@[simp] theorem maxEntries_val : maxEntries = 16 := by decide
+@[simp] theorem helloMinIntervalMs_val : helloMinIntervalMs = 1000 := by decide
+@[simp] theorem bandNmax_val : bandNmax = 10000 := by decide
+@[simp] theorem bandAlpha_val : bandAlpha = 45 := by decide
+@[simp] theorem bandBeta_val : bandBeta = 2 := by decide
+@[simp] theorem bandGamma_val : bandGamma = 10 := by decide
+@[simp] theorem bandTxc_val : bandTxc = 4 := by decide
+@[simp] theorem bandBlockTime_val : bandBlockTime = 300 := by decide
+@[simp] theorem bandMulFrame1_val : bandMulFrame1 = 6 := by decide
+
 /-- the observation node has no padding: its size is the sum of its fields (so field-wise assignment initialises every byte) -/
 theorem node_no_padding : nodeBytes = nodePayloadBytes := rfl
 theorem node_observed : observedNodeBytes = nodeBytes := rfl
